@@ -379,6 +379,41 @@ func (c *Ctx) ctorOperator(f *ssa.Function) []string {
 			}
 		}
 	}
+	if len(set) == 0 {
+		// the constructor goes through a helper that forwards the operator (Expr(e, op, …) with op a parameter
+		// of the helper): the operator is the constant this constructor passes to the helper
+		for _, b := range f.Blocks {
+			for _, in := range b.Instrs {
+				call, ok := in.(*ssa.Call)
+				if !ok {
+					continue
+				}
+				h := call.Call.StaticCallee()
+				if h == nil || h == general || fnPkgPath(h) != pkgExpr || len(h.Blocks) == 0 {
+					continue
+				}
+				for _, hb := range h.Blocks {
+					for _, hin := range hb.Instrs {
+						hc, ok := hin.(*ssa.Call)
+						if !ok || hc.Call.StaticCallee() != general || len(hc.Call.Args) < 2 {
+							continue
+						}
+						p, isP := c.resolve(hc.Call.Args[1], nil).(*ssa.Parameter)
+						if !isP {
+							continue
+						}
+						for i, q := range h.Params {
+							if q == p && i < len(call.Call.Args) {
+								if k, ok := c.resolve(call.Call.Args[i], nil).(*ssa.Const); ok {
+									set[c.constName(k)] = true
+								}
+							}
+						}
+					}
+				}
+			}
+		}
+	}
 	var out []string
 	for k := range set {
 		out = append(out, k)
